@@ -17,6 +17,7 @@ type UnitResult struct {
 	HasSpec  bool
 	Trusted  bool
 	NumBlock int
+	Flags    map[int]bool // surviving Houdini candidates
 }
 
 func (e *Engine) buildUnit(name string) (res *UnitResult) {
